@@ -404,7 +404,7 @@ func runRaw(g *dag.Graph, ops []string, origin string) {
 	if nontrivial {
 		run.Nontrivial("raw " + u.ctString() + " " + rep.Ops)
 	}
-	if run.Evaluations%97 == 1 {
+	if nontrivial && len(g.Nodes) >= 5 && len(run.Samples) < 2 {
 		run.Sample(map[string]any{"part": "raw", "graph": g.Describe(), "ops": rep.Ops, "observed": strings.Join(toks, " ")})
 	}
 }
@@ -979,7 +979,7 @@ func (e *xstore) finish(origin string) {
 	if e.sawReopen {
 		run.Count("history-with-reopen")
 	}
-	if run.Evaluations%53 == 1 {
+	if e.sawGC && e.sawReopen && e.sawDelete && len(run.Samples) < 5 || e.kind == "file" && len(run.Samples) < 3 {
 		run.Sample(map[string]any{"part": "store", "store": e.kind, "autogc": e.autoGC, "graph": e.u.g.Describe(), "script": e.script})
 	}
 }
@@ -1288,7 +1288,7 @@ func main() {
 		return
 	}
 	nRaw := run.Scale(1500, 40000)
-	nStore := run.Scale(360, 9000)
+	nStore := run.Scale(360, 15000)
 	for i := 0; i < nRaw; i++ {
 		caseFromSeed("raw", run.Rand.U64())
 	}
